@@ -13,8 +13,8 @@ Definition c_hi (kind width : Z) : Z := if kind =? 0 then 2 ^ (8 * width - 1) - 
 Definition irec_ok (r : irec) : bool :=
   ((c_kind r =? 0) || (c_kind r =? 1)) &&
   ((c_width r =? 1) || (c_width r =? 2) || (c_width r =? 4) || (c_width r =? 8)) &&
-  (v_min r =? c_lo (c_kind r) (c_width r)) && (v_max r =? c_hi (c_kind r) (c_width r)) &&
-  (v_size r =? c_width r) && Bool.eqb (v_unsigned r) (c_kind r =? 1).
+  (v_min r =? c_lo (c_kind r) (c_width r)) && (v_max r =? c_hi (c_kind r) (c_width r)).
+(* _size and _unsigned are informational attributes (not consulted by validation): translated, not constrained *)
 Definition byte_irec_ok (r : irec) : bool := irec_ok r && (c_kind r =? 1) && (c_width r =? 1).
 Definition fct_ok (ct : Z * Z) : bool := (fst ct =? 2) && ((snd ct =? 4) || (snd ct =? 8)).
 Definition elem_ok (e : elem) : bool :=
@@ -38,20 +38,6 @@ Fixpoint wf_val (v : pyval) : bool :=
   match v with
   | PBytes bs => all_bytes bs
   | PList l => forallb wf_val l
-  | _ => true
-  end.
-
-(* --- the recorded exclusion: a float-array sequence whose FIRST element is NaN --- *)
-Definition is_nan_val (v : pyval) : bool :=
-  match v with PFloat b | PNumLike b => f64_is_nan b | _ => false end.
-Definition head_not_nan (v : pyval) : bool :=
-  match iter_items v with
-  | Some (x :: _) => negb (is_nan_val x)
-  | _ => true
-  end.
-Definition excl (t : ftype) (v : pyval) : bool :=
-  match t with
-  | TArr (EFloat _ _) _ => head_not_nan v
   | _ => true
   end.
 
